@@ -302,3 +302,31 @@ def has_nested_union(t, inside=False):
     if k == "cont":
         return any(has_nested_union(f, inside) for f in t[1])
     return False
+
+
+def gen_full_value(rng, t, budget=[0]):
+    """a value with every variable-size part as long as its limit allows (when the limit is small)"""
+    k = t[0]
+    if k == "uint":
+        return (1 << (8 * t[1])) - 1
+    if k == "bool":
+        return True
+    if k == "bitvec":
+        return "1" * t[1]
+    if k == "bitlist":
+        return "1" * min(t[1], 600)
+    if k == "bytevec":
+        return "ff" * t[1]
+    if k == "bytelist":
+        return "ff" * min(t[1], 100)
+    if k == "vec":
+        return [gen_full_value(rng, t[1]) for _ in range(t[2])]
+    if k == "list":
+        n = min(t[2], 40 if is_basic(t[1]) else 6)
+        return [gen_full_value(rng, t[1]) for _ in range(n)]
+    if k == "cont":
+        return [gen_full_value(rng, f) for f in t[1]]
+    if k == "union":
+        sel = union_count(t) - 1
+        o = union_opt(t, sel)
+        return [sel, None if o is None else gen_full_value(rng, o)]
